@@ -366,9 +366,22 @@ def fixed_const(i, f):
     return c
 
 
+def coerce_ret(t, v):
+    """value of a call: the callee's declared return type crops / zero-extends"""
+    if t[0] == "int":
+        r = RInt.of(v)
+        if r.k is None:
+            return RInt(r.v % (1 << t[1]), t[1])
+        return RInt(r.v, t[1], r.k)
+    if t[0] == "tuple":
+        return tuple(coerce_ret(x, e) for x, e in zip(t[1], v))
+    return v
+
+
 def namespace():
     ns = {
         "_W": widen,
+        "_R": coerce_ret,
         "ord": _ord,
         "chr": _chr,
         "min": _minmax(False),
